@@ -52,6 +52,9 @@ def shrink(mon_id, line, flavour, workdir):
     while changed and len(ops) > 1:
         changed = False
         cands = [";".join(head + ops[:i] + ops[i + 1:]) for i in range(len(ops))]
+        if head[0] == "mpmc":
+            from check import retag_line
+            cands = [retag_line(c) for c in cands]
         cands = _model_ok(cands, workdir)
         if not cands:
             break
@@ -78,7 +81,16 @@ def search(prop, spec, corr, tier, seed):
             subprocess.run([MODELRUN, "explore-full", run["prim"], run["cfg"], str(budget)], stdout=hf, stderr=subprocess.DEVNULL)
             rc = run.get("random_cfg", run["cfg"])
             subprocess.run([MODELRUN, "random", run["prim"], rc, str(seed), "2000", "80"], stdout=hf, stderr=subprocess.DEVNULL)
+        for cf in (os.path.join(ROOT, "corpus", run["prim"] + ".txt"), os.path.join(ROOT, "corpus", run["name"] + ".txt")):
+            if os.path.exists(cf):
+                with open(hist, "a") as hf:
+                    for l in open(cf):
+                        if l.strip() and not l.startswith("#"):
+                            p2 = l.strip().split(";"); p2[2] = "A"; hf.write(";".join(p2) + "\n")
         lines = [l.strip() for l in open(hist) if l.strip()]
+        if run["prim"] == "mpmc":
+            from check import retag_line
+            lines = [retag_line(l) for l in lines]
         for fl in run["flavours"]:
             fails = _run_monitor(mon["id"], lines, fl, workdir)
             if fails:
